@@ -121,7 +121,7 @@ def gen_hybrid_schema(rng, sw):
         rename = {}
         if sw.get("rename") and rng.random() < 0.6:
             for f in rng.sample(fields, min(len(fields), rng.choice([1, 1, 2]))):
-                rename[f[0]] = f[0] + "_py"
+                rename[f[0]] = ("_" + f[0]) if rng.random() < 0.3 else (f[0] + "_py")
         schema.append({"k": "struct", "name": f"H{j}Data", "hname": f"H{j}", "hybrid": True, "fields": fields, "rename": rename, "decl": "hybrid"})
         hyb.append(len(schema) - 1)
     return schema
@@ -206,6 +206,28 @@ class HMat(M.Materialiser):
                 self.memerr = True
                 self.foreign += 1
                 return o.dressed, M.RefLeaf(M.copy_node(schema, ty["to"], o.node, False))
+        if k == "ref" and isinstance(spec, dict) and "part" in spec:
+            o = self._obj(spec["part"][0])
+            path = spec["part"][1]
+            pt, pnode, _, _ = M.node_at(schema, o.t, o.node, path)
+            if pt != ty["to"] or pnode is None or "*" in path:
+                raise KeyError("part mismatch")
+            if getattr(o, "dressed", None) is not None and self.depth <= 1 and not self.raw:
+                cur, tcur = o.dressed, o.t
+                for el in path:
+                    cur = getattr(cur, schema[tcur].get("rename", {}).get(el, el))
+                    tcur = [f[1] for f in schema[tcur]["fields"] if f[0] == el][0]
+                if not hasattr(cur, "_xobject"):
+                    raise KeyError("part is not dressed")
+                if o.bufid == self.holder_buf:
+                    self.aliased += 1
+                    if pnode.loc is None:
+                        pnode.loc = (o.bufid, int(cur._xobject._offset))
+                    return cur, M.RefLeaf(pnode)
+                self.memerr = True
+                self.foreign += 1
+                return cur, M.RefLeaf(M.copy_node(schema, pt, pnode, False))
+            return super().mat(t, spec)
         if k == "ref" and isinstance(spec, dict) and "d" in spec:
             self.depth += 1  # a dict for a referent goes to the raw struct constructor
             try:
@@ -273,6 +295,16 @@ class HGenSource(GenSource):
     def top_types(self, w):
         # raw (undressed) constructions stay rare and never build hybrid structs behind the layer's back
         return [i for i, ty in enumerate(w.schema) if ty["k"] in ("struct", "array", "str")]
+
+    def set_compound(self, w):
+        op = super().set_compound(w)
+        if op is not None and isinstance(op.get("value"), dict) and "obj" in op["value"]:
+            o = w.objs[op["obj"]]
+            if getattr(o, "dressed", None) is not None:
+                # replacing (part of) a dressed object through its raw _xobject, behind the dressing
+                # layer's back, is outside the property's alphabet (like raw reference rebinding)
+                return None
+        return op
 
     def hlive(self, w):
         return [o for o in w.live_objs() if getattr(o, "dressed", None) is not None]
@@ -356,7 +388,17 @@ class HGenSource(GenSource):
         ty = w.schema[t]
         k = ty["k"]
         if k == "sc":
-            return {"op": "h_set", "obj": o.k, "path": p, "value": M.gen_scalar(rng, ty["t"])}
+            value = M.gen_scalar(rng, ty["t"])
+            pt, _, _, _ = M.node_at(w.schema, o.t, o.node, p[:-1])
+            fdecl = [f for f in w.schema[pt]["fields"] if f[0] == p[-1]] if w.schema[pt]["k"] == "struct" else []
+            if fdecl and M.decl_default(fdecl[0]) is not None and rng.random() < 0.35:
+                # the declared default itself, or (floats) its closest neighbour: not the default
+                dt = np.dtype(typegen.SC_DTYPE[ty["t"]])
+                dflt = np.frombuffer(M.default_node(w.schema, t, M.decl_default(fdecl[0])), dtype=dt)[0]
+                if dt.kind == "f" and rng.random() < 0.6:
+                    dflt = np.nextafter(dflt, dt.type(np.inf) if rng.random() < 0.5 else dt.type(-np.inf))
+                value = {"x": dt.type(dflt).tobytes().hex()}
+            return {"op": "h_set", "obj": o.k, "path": p, "value": value}
         if k == "str":
             cap = n.cap if n.cap is not None else 1
             fits = [s for s in M.STRINGS if len(s.encode()) + 1 <= cap]
@@ -389,6 +431,12 @@ class HGenSource(GenSource):
             cands = w.live_objs(ty["to"])
             same = [x for x in cands if x.buf is o.buf and x.k != o.k]
             other = [x for x in cands if x.buf is not o.buf]
+            if r < 0.12:
+                # a part nested (by value) in another object of the same buffer as referent
+                for x in [y for y in self.hlive(w) if y.buf is o.buf]:
+                    parts = [pp for pp, pt2, pn in M.enum_paths(w.schema, x.t, x.node, through_refs=False) if pp and pt2 == ty["to"] and isinstance(pp[-1], str)]
+                    if parts:
+                        return {"op": "h_set", "obj": o.k, "path": p, "value": {"part": [x.k, rng.choice(parts)]}}
             if same and r < 0.6:
                 return {"op": "h_set", "obj": o.k, "path": p, "value": {"obj": rng.choice(same).k}}
             if other and r < 0.75:
@@ -410,7 +458,12 @@ class HGenSource(GenSource):
             place = self.place(w)
             if place == "default_ctx" or (isinstance(place, dict) and place.get("how") in ("offset", "aligned", "packed")):
                 place = {"ctx": 0}
-        return {"op": "h_copy", "obj": o.k, "place": place, "id": self.new_id()}
+        op = {"op": "h_copy", "obj": o.k, "place": place, "id": self.new_id()}
+        if self.rng.random() < 0.25:
+            nested = [p for p, t, n in M.enum_paths(w.schema, o.t, o.node, through_refs=False) if p and isinstance(p[-1], str) and w.schema[t]["k"] == "struct" and w.schema[t].get("hybrid")]
+            if nested:
+                op["part"] = self.rng.choice(nested)
+        return op
 
     def h_move(self, w):
         rng = self.rng
@@ -778,6 +831,8 @@ class HStep(Step):
         w, op = self.w, self.op
         src = self.hobj(op["obj"])
         pk = self.place_kwargs(op["place"])
+        if op.get("part"):
+            return self._h_copy_part(src, op["part"], pk)
         try:
             h = src.dressed.copy(**pk)
         except Exception as e:
@@ -800,6 +855,28 @@ class HStep(Step):
             c0, c1 = o.off, o.off + self._extent(o)
             if c0 < s1 and s0 < c1:
                 self.viol("C18", "copy_overlaps_source", ["h_copy"], f"src [{s0},{s1}) copy [{c0},{c1})")
+
+    def _h_copy_part(self, src, part, pk):
+        """outer.inner.copy(): an independent top-level object made from a nested dressed part."""
+        w = self.w
+        try:
+            pt, pnode, _, _ = M.node_at(w.schema, src.t, src.node, part)
+        except Exception:
+            raise Skip()
+        target, tt = self._holder(src, part)
+        if pnode is None or not hasattr(target, "_xobject") or not w.schema[tt].get("hybrid"):
+            raise Skip()
+        try:
+            h = target.copy(**pk)
+        except Exception as e:
+            self.outcome = "raised:" + exc_sig(e)
+            self.viol("C18", "copy_raised", ["h_copy", exc_sig(e), "part"], f"{type(e).__name__}: {e}")
+            return
+        same_buf = h._xobject._buffer is src.buf
+        o = self.register_h(tt, M.copy_node(w.schema, tt, pnode, same_buf), h)
+        o.copy_of = src.k
+        self.res.probe("h_copy_of_nested_part")
+        self.check_obj(o, "C18", what="copy_ne_model")
 
     def op_h_move(self):
         w, op = self.w, self.op
